@@ -310,6 +310,15 @@ impl<T: Clone + Into<Vec<u8>>> FindNodeContext<T> {
     }
 }
 
+// Verification hooks (runtime-monitoring harness only).
+#[cfg(feature = "verif")]
+impl<T: Clone + Into<Vec<u8>>> FindNodeContext<T> {
+    /// Override the per-peer timeout (the 10 s constant is otherwise only reachable by waiting).
+    pub fn verif_set_peer_timeout(&mut self, timeout: std::time::Duration) {
+        self.peer_timeout = timeout;
+    }
+}
+
 #[cfg(test)]
 mod tests {
     use super::*;
